@@ -2,6 +2,7 @@ package main
 
 import (
 	"fmt"
+	"sync"
 	"sort"
 	"strings"
 	"time"
@@ -97,6 +98,7 @@ type RunConfig struct {
 	SolverName string
 	Deadline   time.Time
 	Tier       int
+	PathWorkers int
 }
 
 func (ex *Exec) resetPath(forced []int64) {
@@ -121,6 +123,8 @@ func (ex *Exec) resetPath(forced []int64) {
 	ex.mapOrderFork = false
 	ex.curFrame = nil
 	ex.unknownBranches = 0
+	ex.formatCalls = 0
+	ex.formatFailAt = -1
 }
 
 func (ex *Exec) buildReplay(m map[string]uint64) *Replay {
@@ -176,52 +180,156 @@ func (ex *Exec) runInit(fn *ssa.Function) {
 
 // RunHarness explores all paths of one harness function.
 func RunHarness(prog *ssa.Program, fn *ssa.Function, initPkgs []*ssa.Package, cfg RunConfig) *HarnessStats {
-	st := &HarnessStats{Name: fn.Name(), Reached: map[string]int{}, Funcs: map[string]int{}}
 	start := time.Now()
-	tf := NewTermFactory()
-	solver, err := NewSolver(cfg.SolverName, tf, cfg.TimeoutMs)
-	if err != nil {
-		st.Inconclusive = append(st.Inconclusive, "cannot start solver: "+err.Error())
-		return st
+	nw := cfg.PathWorkers
+	if nw < 1 {
+		nw = 1
 	}
-	defer solver.Close()
-	isolver, err := NewIntSolver("z3", tf, cfg.TimeoutMs)
-	if err != nil {
-		isolver = nil
-	} else {
-		defer isolver.Close()
-	}
-	ex := &Exec{prog: prog, tf: tf, solver: solver, isolver: isolver, maxSteps: cfg.MaxSteps, maxDepth: cfg.MaxDepth, harness: fn.Name(), stats: st, tier: cfg.Tier}
-	ex.initIntrinsics()
-	ex.initPkgs = initPkgs
-
+	var mu sync.Mutex
+	cond := sync.NewCond(&mu)
 	work := [][]int64{nil}
-	for len(work) > 0 {
-		if st.Paths >= cfg.MaxPaths {
-			st.Inconclusive = append(st.Inconclusive, fmt.Sprintf("path budget %d exhausted with %d pending", cfg.MaxPaths, len(work)))
-			break
-		}
-		if !cfg.Deadline.IsZero() && time.Now().After(cfg.Deadline) {
-			st.Inconclusive = append(st.Inconclusive, fmt.Sprintf("time budget exhausted with %d pending paths", len(work)))
-			break
-		}
-		forced := work[len(work)-1]
-		work = work[:len(work)-1]
-		st.Paths++
-		ex.runPath(fn, forced, cfg)
-		work = append(work, ex.pending...)
+	active := 0
+	paths := 0
+	var stop string
+	parts := make([]*HarnessStats, nw)
+	var wg sync.WaitGroup
+	for w := 0; w < nw; w++ {
+		wg.Add(1)
+		go func(w int) {
+			defer wg.Done()
+			st := &HarnessStats{Name: fn.Name(), Reached: map[string]int{}, Funcs: map[string]int{}}
+			parts[w] = st
+			tf := NewTermFactory()
+			solver, err := NewSolver(cfg.SolverName, tf, cfg.TimeoutMs)
+			if err != nil {
+				st.Inconclusive = append(st.Inconclusive, "cannot start solver: "+err.Error())
+				return
+			}
+			defer solver.Close()
+			isolver, err := NewIntSolver("z3", tf, cfg.TimeoutMs)
+			if err != nil {
+				isolver = nil
+			} else {
+				defer isolver.Close()
+			}
+			ex := &Exec{prog: prog, tf: tf, solver: solver, isolver: isolver, maxSteps: cfg.MaxSteps, maxDepth: cfg.MaxDepth, harness: fn.Name(), stats: st, tier: cfg.Tier, deadline: cfg.Deadline}
+			ex.initIntrinsics()
+			ex.initPkgs = initPkgs
+			defer func() {
+				st.SolverTime = solver.Time
+				st.SolverQ = solver.Queries
+				if isolver != nil {
+					st.SolverTime += isolver.Time
+					st.SolverQ += isolver.Queries
+					solver.Errors += isolver.Errors
+				}
+				if solver.Errors > 0 {
+					st.Inconclusive = append(st.Inconclusive, fmt.Sprintf("solver printed %d (error lines", solver.Errors))
+				}
+			}()
+			for {
+				mu.Lock()
+				for len(work) == 0 && active > 0 && stop == "" {
+					cond.Wait()
+				}
+				if stop != "" || (len(work) == 0 && active == 0) {
+					mu.Unlock()
+					cond.Broadcast()
+					return
+				}
+				if paths >= cfg.MaxPaths {
+					stop = fmt.Sprintf("path budget %d exhausted with %d pending", cfg.MaxPaths, len(work))
+					mu.Unlock()
+					cond.Broadcast()
+					return
+				}
+				if !cfg.Deadline.IsZero() && time.Now().After(cfg.Deadline) {
+					stop = fmt.Sprintf("time budget exhausted with %d pending paths", len(work))
+					mu.Unlock()
+					cond.Broadcast()
+					return
+				}
+				forced := work[len(work)-1]
+				work = work[:len(work)-1]
+				active++
+				paths++
+				mu.Unlock()
+				st.Paths++
+				func() {
+					defer func() {
+						if r := recover(); r != nil {
+							st.Inconclusive = append(st.Inconclusive, fmt.Sprintf("engine crash: %v", r))
+							ex.pending = nil
+							if verboseCrash {
+								panic(r)
+							}
+						}
+					}()
+					ex.runPath(fn, forced, cfg)
+				}()
+				mu.Lock()
+				work = append(work, ex.pending...)
+				active--
+				mu.Unlock()
+				cond.Broadcast()
+			}
+		}(w)
 	}
-	st.SolverTime = solver.Time
-	st.SolverQ = solver.Queries
-	if isolver != nil {
-		st.SolverTime += isolver.Time
-		st.SolverQ += isolver.Queries
-		solver.Errors += isolver.Errors
-	}
-	if solver.Errors > 0 {
-		st.Inconclusive = append(st.Inconclusive, fmt.Sprintf("solver printed %d (error lines", solver.Errors))
+	wg.Wait()
+	st := mergeStats(fn.Name(), parts)
+	if stop != "" {
+		st.Inconclusive = append(st.Inconclusive, stop)
 	}
 	st.Wall = time.Since(start)
+	return st
+}
+
+func mergeStats(name string, parts []*HarnessStats) *HarnessStats {
+	st := &HarnessStats{Name: name, Reached: map[string]int{}, Funcs: map[string]int{}, Assumptions: map[string]bool{}}
+	for _, p := range parts {
+		if p == nil {
+			continue
+		}
+		st.Paths += p.Paths
+		st.PathsDone += p.PathsDone
+		st.Infeasible += p.Infeasible
+		st.Steps += p.Steps
+		st.Forks += p.Forks
+		st.FeasQueries += p.FeasQueries
+		st.Obligations += p.Obligations
+		st.Discharged += p.Discharged
+		st.Trivial += p.Trivial
+		st.Inconclusive = append(st.Inconclusive, p.Inconclusive...)
+		st.Violations = append(st.Violations, p.Violations...)
+		for k, v := range p.Reached {
+			st.Reached[k] += v
+		}
+		for k := range p.Assumptions {
+			st.Assumptions[k] = true
+		}
+		for _, s := range p.Samples {
+			if len(st.Samples) < 4 {
+				st.Samples = append(st.Samples, s)
+			}
+		}
+		for k, v := range p.Funcs {
+			st.Funcs[k] += v
+		}
+		st.SolverTime += p.SolverTime
+		st.SolverQ += p.SolverQ
+		if len(st.Witnesses) < 3 {
+			st.Witnesses = append(st.Witnesses, p.Witnesses...)
+		}
+		st.PanicPaths += p.PanicPaths
+		if p.MaxPathSteps > st.MaxPathSteps {
+			st.MaxPathSteps = p.MaxPathSteps
+		}
+		st.IntQueries += p.IntQueries
+		st.BVQueries += p.BVQueries
+	}
+	if len(st.Witnesses) > 3 {
+		st.Witnesses = st.Witnesses[:3]
+	}
 	return st
 }
 
